@@ -9,7 +9,7 @@ rules evaluate extracted index expressions.  Anything outside the pure fragment 
 needed, an unevaluable condition) ends the evaluation as `unknown`, which the rules report as analysis-broken,
 never as a violation.
 """
-from .prog import is_e, strip, key, walk, show, evalx, EvalError, callee_name, tevalx, texpr_type, _conv
+from .prog import is_e, strip, key, walk, show, evalx, EvalError, callee_name, tevalx, texpr_type, _conv, PStr
 
 
 def normx(e):
@@ -94,6 +94,57 @@ def run(fn, start, env, stop_pred, P=None, call_value=None, max_steps=400, exit_
             if o.env.get(k) != first.env.get(k):
                 return Outcome("unknown", o.at, o.env, o.trace, "forks disagree on a watched value")
     return first
+
+
+def _lower(b):
+    return b + 32 if 65 <= b <= 90 else b
+
+
+def string_builtin(name, args):
+    """value of a C library / libevent ASCII helper on abstract string pointers, or NotImplemented"""
+    def S(i):
+        return args[i] if i < len(args) and isinstance(args[i], PStr) else None
+    def I(i):
+        return args[i] if i < len(args) and isinstance(args[i], int) else None
+    if name == "strlen" and S(0):
+        return len(S(0).text())
+    if name in ("strchr", "strrchr") and S(0) and I(1) is not None:
+        t = S(0).text()
+        c = I(1) & 0xff
+        if c == 0:
+            return S(0) + len(t)
+        idx = t.find(bytes([c])) if name == "strchr" else t.rfind(bytes([c]))
+        return 0 if idx < 0 else S(0) + idx
+    if name in ("strcmp", "strcasecmp", "evutil_ascii_strcasecmp") and S(0) and S(1):
+        a, b = S(0).text(), S(1).text()
+        if name != "strcmp":
+            a, b = bytes(map(_lower, a)), bytes(map(_lower, b))
+        return (a > b) - (a < b)
+    if name in ("strncmp", "strncasecmp", "evutil_ascii_strncasecmp") and S(0) and S(1) and I(2) is not None:
+        a, b = S(0).text()[:I(2)], S(1).text()[:I(2)]
+        if name != "strncmp":
+            a, b = bytes(map(_lower, a)), bytes(map(_lower, b))
+        return (a > b) - (a < b)
+    if name in ("strspn", "strcspn") and S(0) and S(1):
+        t, set_ = S(0).text(), S(1).text()
+        n = 0
+        for ch in t:
+            if (ch in set_) != (name == "strspn"):
+                break
+            n += 1
+        return n
+    if name in ("EVUTIL_TOLOWER_", "tolower") and I(0) is not None:
+        return _lower(I(0) & 0xff)
+    if name in ("EVUTIL_TOUPPER_", "toupper") and I(0) is not None:
+        b = I(0) & 0xff
+        return b - 32 if 97 <= b <= 122 else b
+    cls = {"EVUTIL_ISDIGIT_": lambda b: 48 <= b <= 57, "EVUTIL_ISALPHA_": lambda b: 65 <= b <= 90 or 97 <= b <= 122,
+           "EVUTIL_ISALNUM_": lambda b: 48 <= b <= 57 or 65 <= b <= 90 or 97 <= b <= 122, "EVUTIL_ISSPACE_": lambda b: b in (32, 9, 10, 11, 12, 13),
+           "EVUTIL_ISXDIGIT_": lambda b: 48 <= b <= 57 or 65 <= b <= 70 or 97 <= b <= 102, "EVUTIL_ISUPPER_": lambda b: 65 <= b <= 90, "EVUTIL_ISLOWER_": lambda b: 97 <= b <= 122,
+           "EVUTIL_ISPRINT_": lambda b: 32 <= b <= 126}
+    if name in cls and I(0) is not None:
+        return int(cls[name](I(0) & 0xff))
+    return NotImplemented
 
 
 def run_all(fn, start, env, stop_pred, P=None, call_value=None, max_steps=400, exit_blocks=(), _budget=None, notable=None):
@@ -206,6 +257,43 @@ def _run1(fn, start, env, stop_pred, P, call_value, max_steps, exit_blocks, fork
             try:
                 if k == "call":
                     v = call_value(el, env) if call_value else None
+                    if v is None and callee_name(e) is not None:
+                        # C library / ASCII helpers on abstract strings
+                        try:
+                            avals = [ev(a) for a in e[2]]
+                            bv = string_builtin(callee_name(e), avals)
+                            if bv is not NotImplemented:
+                                v = bv
+                        except EvalError:
+                            pass
+                    if v == "inline" and P is not None and callee_name(e) in P.fns:
+                        # evaluate the callee on the argument values (pure helpers: strings and integers in, one value out)
+                        g = P.fns[callee_name(e)]
+                        env2 = {"#typed": env.get("#typed")} if env.get("#typed") else {}
+                        for (pn, pt), a in zip(g.params, e[2]):
+                            try:
+                                env2[pn] = ev(a)
+                            except EvalError:
+                                pass
+                        if budget[0] <= 0:
+                            return Outcome("unknown", el, env, trace, "fork budget exhausted")
+                        sub = [budget[0]]
+                        subouts = run_all(g, (g.entry, 0), env2, lambda x: False, P, call_value, max_steps, (), None, None)
+                        vals = []
+                        for so in subouts:
+                            if so.kind == "exit" and so.why == "noreturn":
+                                continue
+                            if so.kind != "ret":
+                                return Outcome("unknown", el, env, trace, "inlined %s: %s %s" % (g.name, so.kind, so.why))
+                            try:
+                                rv_ = evalx(conc(normx(so.at.e[1])), so.env, P) if len(so.at.e) > 1 and so.at.e[1] is not None else None
+                            except EvalError as ex_:
+                                return Outcome("unknown", el, env, trace, "inlined %s: return value: %s" % (g.name, ex_))
+                            if rv_ not in vals:
+                                vals.append(rv_)
+                        if not vals:
+                            return Outcome("unknown", el, env, trace, "inlined %s has no outcome" % g.name)
+                        v = [(x, {}) for x in vals] if len(vals) > 1 else vals[0]
                     if isinstance(v, list):
                         # nondeterministic callee: [(value, {key: newvalue}), ...]; first continues here, the others fork
                         for av, upd in v[1:]:
